@@ -169,10 +169,10 @@ def run(ctx, chk):
             if mp_ is not None:
                 ks, vs, loops, cond = mp_
                 v = unwrap(cn.norm(mapping_value_term(ip, rt)))
-                it = f"each(HostVector.{mp}.items())"
-                ok = ks == f"{it}[0]" and loops == [f"HostVector.{mp}.items()"] \
+                M = f"HostVector.{mp}"
+                ok = ks == f"each({M})" and loops == [M] \
                     and cond == ("true",) and v[0] == "cell" and v[2] == name and \
-                    cn.show(v[3]) == f"{it}[1]" and cn.show(v[1]) == "S[A]"
+                    cn.show(v[3]) == f"{M}[each({M})]" and cn.show(v[1]) == "S[A]"
         n_acc += 1
         chk.ob("C09.accessor", f"HostVector.{name} maps each name of {mp} to its own flag in family "
                f"{name}", ok, detail, f"{path}:{m.node.lineno}")
@@ -405,8 +405,8 @@ def check_dims(ctx, chk):
             a = [x for x in rows[0].data["args"] if x[0] != "classref"]
             # canonical row form T[addr] (the index goes through host_num_map[addr])
             rok = cn.norm(a[2])[0] == "row" and re.fullmatch(
-                r"zeros\(.*\)\[each\(\w+\.hosts\.items\(\)\)\[0\]\]", cn.show(a[2])) is not None and \
-                re.fullmatch(r"each\(\w+\.hosts\.items\(\)\)\[1\]", cn.show(a[0])) is not None
+                r"zeros\(.*\)\[each\((\w+)\.hosts\)\]", cn.show(a[2])) is not None and \
+                re.fullmatch(r"(\w+)\.hosts\[each\(\1\.hosts\)\]", cn.show(a[0])) is not None
         chk.ob("C09.dims", "State.tensorize: float32 zeros of shape (#hosts, state_size); every host "
                "is vectorised into the row host_num_map[address]", ok and rok,
                f"zeros{[cn.show(z.data['args'][0]) for z in zs]}; row writes "
